@@ -1,5 +1,6 @@
 import Proofs.Codec
 import Proofs.Reopen
+import Proofs.ReopenEverywhere
 /-! C11 — close/reopen preserves everything; clear empties everything. The files *are* the state:
     decoding the two images returns the block arrays; both images are whole numbers of blocks; the
     model's `reopen` touches nothing but the RAM rules; `clear d rs` is literally a fresh index. -/
@@ -43,5 +44,60 @@ theorem C11_reopen_anywhere (s : State) (h : (s.rules.map (·.1)).Nodup) (ops : 
     (s.reopen s.dflt s.rules).run ops = s.run ops := by rw [reopen_same s h]
 
 example : (({} : State).reopen .domain []).trie.size = 1 := by decide
+
+section Full
+open Traph State Layout
+/-! ### the property in full (Proofs/ObsEquiv*, ReopenEverywhere): observational equivalence `≃ₒ` = same files, id counter,
+    configuration, default rule and the same rule CONTENT in RAM (order of the dict and the ghost log ignored) -/
+
+/-- THE PROPERTY: take any history `ops` from any state `s` and insert close/reopen requests at any positions, any number of times, each re-supplying the same rule content as the index holds at that moment (in any order, repetitions allowed: `Reopened`). Then the final indexes are observationally equal, the answers of the original requests are the same, the storage writes are the same (a reopen writes nothing), both file images are byte-identical, and every read-only request answers the same -/
+theorem C11_reopen_everywhere (s : State) (ops : List Op) (ops' : List (Bool × Op)) (hi : Reopened s ops ops') :
+    s.run ops ≃ₒ s.run (oe_unmark ops') ∧
+    s.oe_origAnswers ops' = s.transcript ops ∧
+    s.oe_runWrites (oe_unmark ops') = s.oe_runWrites ops ∧
+    (s.run (oe_unmark ops')).log = (s.run ops).log ∧
+    encodeTrie (s.run (oe_unmark ops')) = encodeTrie (s.run ops) ∧
+    encodeLinks (s.run (oe_unmark ops')) = encodeLinks (s.run ops) ∧
+    ∀ q, (s.run (oe_unmark ops')).ask q = (s.run ops).ask q :=
+  Traph.C11_reopen_everywhere s ops ops' hi
+
+/-- …and the two indexes continue to evolve identically under any further requests (answers, writes, equivalence) -/
+theorem C11_reopen_continues (s : State) (ops : List Op) (ops' : List (Bool × Op)) (hi : Reopened s ops ops')
+    (more : List Op) :
+    (s.run (oe_unmark ops')).transcript more = (s.run ops).transcript more ∧
+    (s.run (oe_unmark ops')).oe_runWrites more = (s.run ops).oe_runWrites more ∧
+    (s.run ops).run more ≃ₒ (s.run (oe_unmark ops')).run more :=
+  Traph.C11_reopen_continues s ops ops' hi more
+
+/-- both files are whole numbers of blocks — in EVERY state, no hypothesis (the encoders are fixed-width) -/
+theorem C11_whole_blocks_always (s : State) :
+    (encodeTrie s).length = s.trie.size * Layout.trieBlock ∧ (encodeLinks s).length = s.links.size * Layout.linkBlock ∧
+    (encodeTrie s).length % Layout.trieBlock = 0 ∧ (encodeLinks s).length % Layout.linkBlock = 0 :=
+  Traph.C11_whole_blocks_always s
+
+/-- `clear` with rules given, inserted at any position: from then on the index is indistinguishable from a freshly created one holding those rules — same answer to the clear, same answers and writes afterwards, byte-identical files, same read-only answers -/
+theorem C11_clear_everywhere (s : State) (pre post : List Op) (d : Option Rule) (rs : List (Bytes × Rule)) :
+    let c := s.run pre
+    let f := (State.fresh s.cfg (d.getD c.dflt) rs []).1
+    (c.step (.clear d (some rs))).2 = Ans.ofExcept (fun _ => .unit) (State.fresh s.cfg (d.getD c.dflt) rs []).2 ∧
+    f.run post ≃ₒ s.run (pre ++ .clear d (some rs) :: post) ∧
+    (c.step (.clear d (some rs))).1.transcript post = f.transcript post ∧
+    (c.step (.clear d (some rs))).1.oe_runWrites post = f.oe_runWrites post ∧
+    encodeTrie (s.run (pre ++ .clear d (some rs) :: post)) = encodeTrie (f.run post) ∧
+    encodeLinks (s.run (pre ++ .clear d (some rs) :: post)) = encodeLinks (f.run post) ∧
+    ∀ q, (s.run (pre ++ .clear d (some rs) :: post)).ask q = (f.run post).ask q :=
+  Traph.C11_clear_everywhere s pre post d rs
+
+/-- `clear` WITHOUT rules keeps the RAM rule dict while the trie flags are gone (interpretation A-6): it is equivalent to a fresh index iff the dict was empty -/
+theorem C11_clear_without_rules (s : State) (d : Option Rule) :
+    (State.fresh s.cfg (d.getD s.dflt) [] []).1 ≃ₒ (s.clear d none).1 ↔ ∀ k, dictGet? s.rules k = none :=
+  Traph.clear_none_equiv_iff s d
+
+/-- in every reachable state, reopening with the very same rules is the identity and with any permutation of them an equivalence -/
+theorem C11_reopen_reachable {s : State} (h : Reachable s) :
+    s.reopen s.dflt s.rules = s ∧ ∀ rs, rs.Perm s.rules → s ≃ₒ s.reopen s.dflt rs :=
+  Traph.C11_reopen_reachable h
+
+end Full
 
 end Traph.Props
